@@ -1,0 +1,32 @@
+//go:build verif
+
+// Licensed to LinDB under one or more contributor
+// license agreements. See the NOTICE file distributed with
+// this work for additional information regarding copyright
+// ownership. LinDB licenses this file to you under
+// the Apache License, Version 2.0 (the "License"); you may
+// not use this file except in compliance with the License.
+// You may obtain a copy of the License at
+//
+//     http://www.apache.org/licenses/LICENSE-2.0
+//
+// Unless required by applicable law or agreed to in writing,
+// software distributed under the License is distributed on an
+// "AS IS" BASIS, WITHOUT WARRANTIES OR CONDITIONS OF ANY
+// KIND, either express or implied.  See the License for the
+// specific language governing permissions and limitations
+// under the License.
+
+package master
+
+import (
+	"github.com/lindb/lindb/coordinator/discovery"
+)
+
+// This file only exists with the "verif" build tag. It lets the external
+// verification harness feed discovery events synchronously; it changes no behaviour.
+
+// VerifProcessEvent processes one discovery event synchronously in the caller's goroutine.
+func VerifProcessEvent(m StateManager, event *discovery.Event) {
+	m.(*stateManager).processEvent(event)
+}
